@@ -4,6 +4,11 @@ CONSTANTS
   Ids = {0, 1, 2}
   Channels = {"org", "user"}
   MaxHops = 6
+  InProc = TRUE
+  WireHops = FALSE
+  HTTPRefused = {}
+  GRPCRefused = {}
+  HTTPTrim <- NoTrim
 INIT Init
 NEXT Next
 VIEW view
